@@ -43,6 +43,8 @@ class CallTracer(A.StepCounter):
             elif now_named != before_named:
                 self.isolation.append({"fn": fr["fn"], "callee": callee, "what": "locals", "before": before_named, "after": copy.deepcopy(now_named)})
         ins = fr["ins"][pc]
+        self.last_op = ins.OpCode.name          # the instruction about to execute (the site of a failure, if one follows)
+        self.last_fn = fr["fn"]
         if ins.OpCode.name == "CALL":
             fr["pending"] = (copy.deepcopy(list(args)), copy.deepcopy({k: v for k, v in localScope.items() if isinstance(k, str)}), ins.Function)
 
@@ -74,5 +76,6 @@ def run_traced(program, entry, args, globals_, budget=300000):
         out = {"ok": False, "fuel": False, "exc": type(e).__name__, "msg": str(e)[:120], "where": A.innermost_nsl_frame(sys.exc_info()[2])}
     finally:
         VM._verif_tracer = None
-    out.update(steps=tr.steps, hook_steps=tr.steps, enters=tr.enters, isolation=tr.isolation, calls_checked=tr.calls_checked)
+    out.update(steps=tr.steps, hook_steps=tr.steps, enters=tr.enters, isolation=tr.isolation, calls_checked=tr.calls_checked,
+               last_op=getattr(tr, "last_op", None), last_fn=getattr(tr, "last_fn", None))
     return out
